@@ -30,6 +30,7 @@ pub fn c16_eval(ast: &Node, flags: Flags, hays: &[Hay], known: &Known, st: &mut 
         return;
     }
     let pat = print::print(ast);
+    crate::subject::set_case_desc(format!("/{}/{} (C16)", print::show(&pat), flags.to_string()));
     let re = match subject::compile(&pat, flags, false) {
         CompileOutcome::Ok(re) => re,
         _ => {
